@@ -49,6 +49,26 @@ type WSEnd struct {
 	deadlineSetsAtLastPong int
 	deadlineSets int
 	torn         int
+	// write deadline (gorilla keeps the last SetWriteDeadline value for every later data write):
+	// while one is set, a flush that is blocked by a peer that does not read may time out — an
+	// optional environment event — which makes the write error sticky
+	wdlSet       bool
+	wdlExpired   bool
+	flushWaiters int
+}
+
+type wsWriteDeadlineEv struct{ e *WSEnd }
+
+func (ev wsWriteDeadlineEv) String() string { return "write deadline of " + ev.e.String() + " expires" }
+func (ev wsWriteDeadlineEv) fire(r *Run) {
+	r.timersFired++
+	ev.e.wdlExpired = true
+	r.obs = append(r.obs, ev.String()+" while a write is stalled")
+}
+
+func (e *WSEnd) flushStalled(r *Run) bool {
+	c := r.B.Params["wscap"]
+	return c > 0 && !e.down && !e.closed && e.wrErr == nil && len(e.peer.inbox) >= c
 }
 
 type WSConnPair struct {
@@ -206,10 +226,19 @@ func (g *G) wsBeginWrite(e *WSEnd, typ int) (Value, Value) {
 
 func (g *G) wsEndWrite(w *wsWriter) Value {
 	e := w.end
+	e.flushWaiters++
 	g.schedPoint(&Op{desc: "ws.flush " + e.String(), obj: e, enabled: func() bool {
-		c := g.run.B.Params["wscap"]
-		return c <= 0 || e.down || e.closed || e.wrErr != nil || len(e.peer.inbox) < c
+		return !e.flushStalled(g.run) || (e.wdlSet && e.wdlExpired)
 	}})
+	e.flushWaiters--
+	if !w.closed && e.wdlSet && e.wdlExpired && e.flushStalled(g.run) {
+		w.closed = true
+		if e.writing != nil {
+			e.writing = nil
+		}
+		e.wrErr = g.wsErr("write tcp: i/o timeout")
+		return e.wrErr
+	}
 	if w.closed {
 		return g.wsErr("websocket: write closed")
 	}
@@ -355,7 +384,16 @@ func init() {
 		e.dlExpired = false
 		return Iface{}
 	})
-	C("SetWriteDeadline", func(g *G, e *WSEnd, fn *ssa.Function, a []Value) Value { return Iface{} })
+	C("SetWriteDeadline", func(g *G, e *WSEnd, fn *ssa.Function, a []Value) Value {
+		tt := g.run.P.NamedType("time", "Time")
+		st := a[0].(Struct)
+		wall, _ := fieldByName(tt, st, "wall").(Int)
+		ext, _ := fieldByName(tt, st, "ext").(Int)
+		zeroT := wall.T == nil && wall.C == 0 && ext.T == nil && ext.C == 0
+		e.wdlSet = !zeroT
+		e.wdlExpired = false
+		return Iface{}
+	})
 	C("SetReadLimit", func(g *G, e *WSEnd, fn *ssa.Function, a []Value) Value { return nil })
 	C("SetPongHandler", func(g *G, e *WSEnd, fn *ssa.Function, a []Value) Value {
 		e.pongH, _ = a[0].(*Closure)
